@@ -108,6 +108,7 @@ def model_value(m, t):
 
 
 MAXLEN = 6000
+TRUNCATED = [False]      # set when a model value was too long to be written out: the concrete input is then not the model's
 
 
 def concretise(v, m):
@@ -141,6 +142,7 @@ def concretise(v, m):
                 L = model_value(m, zi(g.length))
                 if not isinstance(L, int) or L > MAXLEN:
                     L = min(int(L) if isinstance(L, int) else 0, MAXLEN)
+                    TRUNCATED[0] = True
                 for i in range(max(L, 0)):
                     items.append(model_value(m, g.at(i)))
         if v.kind == 'bytes':
@@ -397,7 +399,10 @@ def run_unit(args):
                 try:
                     if ctx.check() == z3.sat:
                         m = ctx.solver.model()
+                        TRUNCATED[0] = False
                         w = unit.witness(ctx, m)
+                        if TRUNCATED[0]:
+                            w = None          # the path needs an input longer than what is replayed natively
                         if w is not None:
                             w["path"] = out["paths"]
                             out["witnesses"].append(w)
